@@ -1,5 +1,6 @@
 //! vharness — runtime monitors for quickwit-oss/chitchat. See /verif/DESIGN.md.
 #![allow(dead_code)]
+mod catchup;
 mod codec;
 mod common;
 mod craft;
@@ -9,6 +10,7 @@ mod hostile;
 mod kvmodel;
 mod listeners;
 mod pairs;
+mod select;
 mod sim;
 mod wire;
 
@@ -41,6 +43,8 @@ fn main() {
         "C10" | "C11" => finish(fd::check(&args, &args.prop)),
         "C06" => finish(kvmodel::check(&args)),
         "C15" => finish(listeners::check(&args)),
+        "C17" => finish(select::check(&args)),
+        "C18" => finish(catchup::check(&args)),
         "C09" => finish(hostile::check(&args)),
         "C07" => finish(wire::check_c07(&args)),
         "C08" => finish(wire::check_c08(&args)),
